@@ -275,13 +275,18 @@ theorem effZ_cancel (I : Nat) (s : Layout) (a : Action) (c : Coord) : EffZ I c s
     ⟨⟨rfl, rfl, fun _ => rfl, rfl, rfl, fun _ h => Or.inl (List.mem_filter.mp h).1, OshIn.refl _, Nat.le_max_left _ _⟩, rfl, rfl⟩
   exact (z0.trans (effZ_oshOther I _ c)).trans (effZ_setRpt I c _ _)
 
+/-- arming the ignore counter (only while a one-shot key is active) touches nothing else -/
+theorem oshIn_armIgnore (o : OneShotState) (t : Nat) : OshIn o (o.armIgnore t) := by
+  unfold OneShotState.armIgnore
+  split
+  · exact OshIn.refl o
+  · exact ⟨rfl, rfl, rfl, rfl, Or.inl rfl, Nat.le_refl _⟩
+
 /-- `one-shot-pause-processing`: only the number of ticks during which `handle_press` ignores events changes -/
 theorem effZ_ignoreTicks (I : Nat) (s : Layout) (a : Action) (t : Nat) (c : Coord) :
-    EffZ I c s { updateCoord s c with rptAction := some a,
-                                      oneshot := { (updateCoord s c).oneshot with ticksToIgnoreEvents := t } } :=
+    EffZ I c s { updateCoord s c with rptAction := some a, oneshot := (updateCoord s c).oneshot.armIgnore t } :=
   (effZ_updateCoord I s c).trans
-    ⟨⟨rfl, rfl, fun h => h, rfl, rfl, fun _ h => Or.inl h, ⟨rfl, rfl, rfl, rfl, Or.inl rfl, Nat.le_refl _⟩,
-      Nat.le_max_left _ _⟩, rfl, rfl⟩
+    ⟨⟨rfl, rfl, fun h => h, rfl, rfl, fun _ h => Or.inl h, oshIn_armIgnore _ t, Nat.le_max_left _ _⟩, rfl, rfl⟩
 
 /-- the tap-hold arm, nothing waiting: a new waiting state, or (inside the tap-hold interval of a
 repeated tap) the tap action at once -/
